@@ -92,6 +92,7 @@ func c07Programs(tier string) []*schedmc.Program {
 						DMap: "d", Key: "ctr",
 					}
 					p.Setup = func(cl *simcluster.Cluster, p *schedmc.Program) {
+						schedmc.Warm(cl, p.DMap)
 						kv, _ := cl.Entry("EO", p.DMap, p.Key)
 						switch kind {
 						case "incr", "incrdecr":
@@ -149,24 +150,31 @@ func c07Programs(tier string) []*schedmc.Program {
 						if !ok {
 							return "not-atomic/" + sig, "returned values are not explainable by any sequential order"
 						}
-						// final value as read afterwards from every member
-						for _, mem := range cl.Live() {
-							dm, _ := mem.Emb.NewDMap("d")
-							r := simcluster.WrapDMap("", dm).Get("ctr")
-							got := string(r.Val)
-							h.Note = "final=" + got
-							match := false
-							for _, f := range finals {
-								if kind == "float" {
-									a, _ := strconv.ParseFloat(f, 64)
-									b, _ := strconv.ParseFloat(got, 64)
-									match = match || a == b
-								} else {
-									match = match || f == got
-								}
+						// final value as read afterwards from every member, right away and an hour later
+						// (no caller asked for an expiry)
+						for pass := 0; pass < 2; pass++ {
+							if pass == 1 {
+								schedmc.AfterAWhile()
+								sig += "/an-hour-later"
 							}
-							if !match {
-								return "final-value/" + sig, fmt.Sprintf("final value read from %s is %q (err=%s); sequential orders allow %v", mem.Name, got, r.Err, finals)
+							for _, mem := range cl.Live() {
+								dm, _ := mem.Emb.NewDMap("d")
+								r := simcluster.WrapDMap("", dm).Get("ctr")
+								got := string(r.Val)
+								h.Note = "final=" + got
+								match := false
+								for _, f := range finals {
+									if kind == "float" {
+										a, _ := strconv.ParseFloat(f, 64)
+										b, _ := strconv.ParseFloat(got, 64)
+										match = match || a == b
+									} else {
+										match = match || f == got
+									}
+								}
+								if !match {
+									return "final-value/" + sig, fmt.Sprintf("final value read from %s is %q (err=%s); sequential orders allow %v", mem.Name, got, r.Err, finals)
+								}
 							}
 						}
 						return "", ""
